@@ -147,6 +147,11 @@ fn templates(n: usize, k: i64, outer_x: bool) -> Vec<(String, E, Vec<(String, V)
     add("filter-truthy", method(l(), "filter", vec![x(), bin(Op::Rem, x(), ilit(3))]), false);
     add("map", method(l(), "map", vec![x(), bin(Op::Mul, seen(x()), ilit(2))]), false);
     add("map3", method(l(), "map", vec![x(), bin(Op::Lt, seen(x()), var("t")), bin(Op::Add, x(), var("y"))]), false);
+    // predicates that are truthy without being bool
+    add("map3-truthy", method(l(), "map", vec![x(), bin(Op::Rem, seen(x()), ilit(3)), bin(Op::Add, x(), var("y"))]), n > 1);
+    add("exists-truthy", method(l(), "exists", vec![x(), bin(Op::Sub, seen(x()), var("t"))]), inside);
+    add("all-truthy", method(l(), "all", vec![x(), bin(Op::Sub, seen(x()), var("t"))]), inside);
+    add("exists_one-truthy", method(l(), "exists_one", vec![x(), bin(Op::Rem, seen(x()), ilit(4))]), n > 2);
     add("reduce", method(l(), "reduce", vec![var("acc"), x(), bin(Op::Add, var("acc"), seen(x())), ilit(0)]), false);
     add(
         "reduce-order",
@@ -238,10 +243,36 @@ fn grid_cases(tier_thorough: bool) -> Vec<Case> {
     out.push(Case {
         label: "all-truthy-every-type".into(),
         e: method(var("l"), "all", vec![var("x"), var("x")]),
-        binds: vec![("l".into(), V::List(pool))],
+        binds: vec![("l".into(), V::List(pool.clone()))],
         progs: vec![],
         nontrivial: true,
     });
+    out.push(Case {
+        label: "map3-truthy-every-type".into(),
+        e: method(var("l"), "map", vec![var("x"), var("x"), E::List(vec![var("x")])]),
+        binds: vec![("l".into(), V::List(pool.clone()))],
+        progs: vec![],
+        nontrivial: true,
+    });
+    // one element at a time, so that each type's truthiness decides the result on its own
+    for v in pool {
+        for m in ["all", "exists", "exists_one", "filter"] {
+            out.push(Case {
+                label: format!("{}-truthy-single", m),
+                e: method(var("l"), m, vec![var("x"), var("x")]),
+                binds: vec![("l".into(), V::List(vec![v.clone()]))],
+                progs: vec![],
+                nontrivial: true,
+            });
+        }
+        out.push(Case {
+            label: "map3-truthy-single".into(),
+            e: method(var("l"), "map", vec![var("x"), var("x"), ilit(1)]),
+            binds: vec![("l".into(), V::List(vec![v.clone()]))],
+            progs: vec![],
+            nontrivial: true,
+        });
+    }
     // non-list receivers
     for v in [V::Int(1), V::s("abc"), V::Null, V::Bytes(vec![1])] {
         for m in ["all", "exists", "exists_one", "filter", "map"] {
